@@ -183,6 +183,10 @@ POSITIONS = {
     "implicit string array": '10 A$(1)="x"',
     "arrays used before the line that DIMs them": "10 GOSUB 100:A(1)=1:B$(2)=\"x\":T(1,2)=3\n20 END\n100 DIM A(20),B$(20),T(4,6):RETURN",
     "scalar string used before the line that DIMs it": "10 GOSUB 100:S$=\"x\"\n20 END\n100 DIM S$,N$(3):RETURN",
+    "string scalar next to a DIMmed string array of the same name": '10 DIM Q$(3),AB$(2)\n20 Q$="x":Q$(1)=Q$:AB$=Q$+AB$(1)',
+    "string array next to a DIMmed string scalar of the same name": '10 DIM Q$,AB$\n20 Q$(1)=Q$:AB$(2)=AB$',
+    "twelve string temporaries in one statement": "10 PRINT A;B;C;D;E;F;G;H;I;J;K;L",
+    "eleven string temporaries of string functions": "10 A$=STR$(1)+STR$(2)+STR$(3)+STR$(4)+STR$(5)+STR$(6)+STR$(7)+STR$(8)+STR$(9)+HEX$(10)+HEX$(11)+A$",
     "string name listed twice in one DIM": "10 DIM A$,B$,A$:A$=B$",
     "configured and plain string listed twice in one DIM": "10 DIM N$(2),B$,N$(2),B$:B$=N$(1)",
     "numeric name listed twice in one DIM": "10 DIM E,F,E:E=F",
